@@ -70,6 +70,10 @@ class ProcessModels(CommonModels):
             for a in args:
                 self.glog_add(path, 'deleted', a)
             return [(path, NONE)]
+        if path.heap.get(('g', 'summarise_steps')) and f.qualname in ('TorProcessProtocol._tor_connected', 'TorProcessProtocol._tor_connection_failed'):
+            # next step of the launch sequence (a unit of its own): logged with its argument
+            self.glog_add(path, 'steps', (f.qualname.split('.')[-1], args[0] if args else NONE))
+            return [(path, NONE)]
         return CommonModels.contract_for(self, ex, path, f, args, kw)
 
     def index(self, ex, path, o, i):
